@@ -182,8 +182,6 @@ def run(ctx):
             src = ast.unparse(node.comparators[0])
             if l == "table" and v is not NOFOLD:
                 acc_tables = list(v) if not isinstance(v, dict) else list(v.keys())
-                if isinstance(v, dict):
-                    var_test = {t: set(vs) for t, vs in v.items()}
             if l == "variable":
                 if v is not NOFOLD and not isinstance(v, dict):
                     var_test = {t: set(v) for t in (acc_tables or [])}
